@@ -123,6 +123,22 @@ def run(ctx):
         nd = 2 if it % 3 else 3
         ns, ms, target, template, mask, tmask, R = _make(rng, nd, score)
         r, r2 = R[0], R[-1]
+        if it % 2 == 0:
+            # the rotation scored before is an interpolated one (its rotated mask has another volume than a grid rotation's),
+            # the mask is not the full box and, for the doubly-masked score, the target mask excludes a region
+            if nd == 3:
+                from scipy.spatial.transform import Rotation
+                r2 = Rotation.from_euler("zyx", [float(x) for x in rng.uniform(20, 70, size=3)], degrees=True).as_matrix()
+            else:
+                a_ = float(rng.uniform(0.4, 1.2))
+                r2 = np.array([[np.cos(a_), -np.sin(a_)], [np.sin(a_), np.cos(a_)]])
+            if score not in ("CC", "LCC"):
+                mask = np.ones(ms)
+                mask[(0,) * nd] = 0
+                mask[(-1,) + (0,) * (nd - 1)] = 0
+            if score == "MCC":
+                tmask = np.ones(ns)
+                tmask[tuple(slice(0, max(1, n // 3)) for n in ns)] = 0
         outs = {}
         for name, hist in (("[r]", [r]), ("[r',r]", [r2, r]), ("[r,r',r]", [r, r2, r])):
             S.Recorder.log = []
@@ -136,7 +152,8 @@ def run(ctx):
             for arr in (outs["[r',r]"][1], outs["[r,r',r]"][0], outs["[r,r',r]"][2]):
                 dmax = max(dmax, float(np.max(np.abs(arr - base))))
             ok = dmax <= 1e-6 * max(1.0, float(np.max(np.abs(base))))
-        inp = {"score": score, "ns": ns, "ms": ms, "pad": bool(it % 2), "mask": mask is not None}
+        inp = {"score": score, "ns": ns, "ms": ms, "pad": bool(it % 2), "mask": mask is not None, "earlier_rotation_interpolated": bool(it % 2 == 0),
+               "r": np.asarray(r).tolist(), "r_earlier": np.asarray(r2).tolist()}
         ctx.spec("score map of a rotation independent of earlier rotations in the worker", inp, ok, {"max diff": dmax},
                  key=f"history:{score}")
         ctx.distinct(("history", score, tuple(ns), tuple(ms), bool(it % 2)))
